@@ -309,8 +309,9 @@ func (a *analysis) class(name string, rw bool) *lockClass {
 	if c := a.classes[name]; c != nil {
 		return c
 	}
-	c := &lockClass{id: -1, name: name, rw: rw}
+	c := &lockClass{id: len(a.classList), name: name, rw: rw}
 	a.classes[name] = c
+	a.classList = append(a.classList, c)
 
 	return c
 }
@@ -398,7 +399,7 @@ func (a *analysis) run() {
 			}
 			all := true
 			for _, s := range a.sites {
-				if s.callee == fi.obj && !a.initOnly[s.caller.fi.obj] && !s.caller.initLit {
+				if s.callee == fi.obj && !s.init {
 					all = false
 
 					break
@@ -407,28 +408,37 @@ func (a *analysis) run() {
 			if all {
 				a.initOnly[fi.obj] = true
 				changed = true
+				// re-evaluate the init flag of the sites inside it
+				for _, s := range a.sites {
+					if s.caller.fi.obj == fi.obj {
+						s.init = true
+					}
+				}
 			}
 		}
 	}
+	tracked := map[*types.Func]bool{}
 	for _, fi := range a.order {
 		if hasSite[fi.obj] && !fi.escapes {
+			tracked[fi.obj] = true
 			a.entry[fi.obj] = &entrySet{top: true}
 		} else {
 			a.entry[fi.obj] = &entrySet{}
 		}
 	}
 	for iter := 0; ; iter++ {
-		if iter > 40 {
+		if iter > 60 {
 			die("entry lockset fixpoint did not converge")
 		}
 		a.walkAll()
-		next := a.nextEntry()
+		next := a.nextEntry(tracked)
 		if entryEqual(a.entry, next) {
 			// functions still TOP are only reachable from TOP functions (dead
 			// code or pure recursion): analyse them with nothing held.
 			anyTop := false
 			for f, es := range a.entry {
 				if es.top && !a.initOnly[f] {
+					delete(tracked, f)
 					a.entry[f] = &entrySet{}
 					anyTop = true
 				}
@@ -471,67 +481,71 @@ func keys(m map[string]bool) []string {
 	return ks
 }
 
-func (a *analysis) nextEntry() map[*types.Func]*entrySet {
+func sameEntryLock(x, y entryLock) bool {
+	return x.class == y.class && x.param == y.param && x.root == y.root && x.path == y.path
+}
+
+func (a *analysis) nextEntry(tracked map[*types.Func]bool) map[*types.Func]*entrySet {
 	next := map[*types.Func]*entrySet{}
-	for f, es := range a.entry {
-		if es.top {
+	for f := range a.entry {
+		if tracked[f] {
 			next[f] = &entrySet{top: true}
-		} else if len(es.locks) == 0 && !a.wasTop(f) {
+		} else {
 			next[f] = &entrySet{}
 		}
 	}
-	seen := map[*types.Func]bool{}
 	for _, s := range a.sites {
-		cur, tracked := next[s.callee]
-		if !tracked {
-			// not yet decided in this round: start from TOP
-			cur = &entrySet{top: true}
-			next[s.callee] = cur
+		if !tracked[s.callee] || s.init {
+			continue
 		}
-		if fi := a.funcs[s.callee]; fi == nil || fi.escapes {
+		cur := next[s.callee]
+		switch {
+		case s.isGo:
 			next[s.callee] = &entrySet{}
-
-			continue
-		}
-		if !a.everTop[s.callee] {
-			continue
-		}
-		if s.init || s.top {
-			continue
-		}
-		seen[s.callee] = true
-		if s.isGo {
-			next[s.callee] = &entrySet{}
-			a.forcedEmpty[s.callee] = true
-
-			continue
-		}
-		if a.forcedEmpty[s.callee] {
-			continue
-		}
-		if cur.top {
+		case s.top:
+			// the caller itself is still undetermined: no constraint yet
+		case cur.top:
 			next[s.callee] = &entrySet{locks: append([]entryLock(nil), s.held...)}
+		default:
+			var keep []entryLock
+			for _, l := range cur.locks {
+				for _, h := range s.held {
+					if sameEntryLock(l, h) {
+						l.excl = l.excl && h.excl
+						keep = append(keep, l)
 
-			continue
-		}
-		var keep []entryLock
-		for _, l := range cur.locks {
-			for _, h := range s.held {
-				if h.class == l.class && h.param == l.param && h.root == l.root && h.path == l.path {
-					l.excl = l.excl && h.excl
-					keep = append(keep, l)
-
-					break
+						break
+					}
 				}
 			}
-		}
-		next[s.callee] = &entrySet{locks: keep}
-	}
-	for f := range a.entry {
-		if next[f] == nil {
-			next[f] = &entrySet{}
+			next[s.callee] = &entrySet{locks: keep}
 		}
 	}
 
 	return next
+}
+
+func entryEqual(x, y map[*types.Func]*entrySet) bool {
+	if len(x) != len(y) {
+		return false
+	}
+	for f, ex := range x {
+		ey := y[f]
+		if ey == nil || ex.top != ey.top || len(ex.locks) != len(ey.locks) {
+			return false
+		}
+		for _, l := range ex.locks {
+			found := false
+			for _, m := range ey.locks {
+				if sameEntryLock(l, m) && l.excl == m.excl {
+					found = true
+				}
+			}
+			if !found {
+				return false
+			}
+		}
+	}
+
+	return true
 }
